@@ -76,6 +76,10 @@ def row_faults(asset: str, other_asset: str, r: Dict[str, Any]) -> List[Dict[str
     if table == "IN":
         add("unknown-exchange", ex="NoSuchExchange")
         add("unknown-holder", ho="Nobody")
+        # a configured name plus white space is not that name (a tree that trims names consistently may accept the row - on the
+        # configured account; booking it on an account of its own is the fault going through)
+        out.append({"kind": "row", "class": "unknown-exchange", "asset": asset, "uid": r["uid"], "table": table, "edit": {"ex": r["ex"] + " "}, "padded_name": True})
+        out.append({"kind": "row", "class": "unknown-holder", "asset": asset, "uid": r["uid"], "table": table, "edit": {"ho": " " + r["ho"]}, "padded_name": True})
         add("type-not-allowed-in-table", type="SELL")
         if r["type"] != "STAKING":
             add("zero-amount", cin="0")
@@ -384,6 +388,14 @@ class Base:
         before = _hash_dir(out)
         res = run_cli(country, ini, ods, out, work, args, env_extra=env, audit=False)
         after = _hash_dir(out)
+        if fault.get("padded_name") and res.exit == 0 and res.report("rp2_full_report"):
+            from rpv.oracle.reports import FullReport
+
+            try:
+                report = FullReport(res.report("rp2_full_report"), "en")
+                res.accounts = sorted({(str(line["ex"]), str(line["ho"])) for asset in self.assets for line in report.balances(asset)[0]})  # type: ignore[attr-defined]
+            except Exception as exc:  # pylint: disable=broad-except
+                res.accounts = [("unreadable report", str(exc)[:80])]  # type: ignore[attr-defined]
         shutil.rmtree(work, ignore_errors=True)
         return res, before, after
 
@@ -400,6 +412,15 @@ def judge(ctx: Any, fault: Dict[str, Any], res: Any, before: Dict[str, str], aft
     detail = {"class": fault["class"], "where": where}
     if res.timed_out:
         ctx.violation("faults.run-hangs", detail, dict(case, fault=fault))
+        return
+    if res.exit == 0 and fault.get("padded_name") and hasattr(res, "accounts"):
+        known_exchanges = {e for h in case["hists"].values() for e in h["exchanges"]}
+        known_holders = {x for h in case["hists"].values() for x in h["holders"]}
+        phantom = [a for a in res.accounts if a[0] not in known_exchanges or a[1] not in known_holders]
+        if phantom:
+            ctx.violation("faults.accepted", dict(detail, booked_on_an_account_the_config_does_not_know=phantom[:3]), dict(case, fault=fault))
+        else:
+            ctx.count("padded_names_accepted_on_the_configured_account")
         return
     if res.exit == 0:
         ctx.violation("faults.accepted", dict(detail, files=sorted(after)), dict(case, fault=fault))
